@@ -355,7 +355,7 @@ def gen_schema(rng) -> dict[str, Any]:
         if zones:
             tcs["zones"] = zones
         if rng.random() < 0.25:
-            tcs["underfloor_heating"] = {dev("02"): {} for _ in range(rng.choice((1, 2)))}
+            tcs["underfloor_heating"] = {dev("02"): {} for _ in range(rng.choice((1, 2, 3, 3)))}  # (the validator allows three)
         if rng.random() < 0.12:
             tcs["orphans"] = [dev("13") for _ in range(rng.choice((1, 2)))]  # a relay bound to the controller, role unknown
         schema[ctl] = tcs
